@@ -14,7 +14,7 @@ CLAIMS = {
          "Every committed block of every simulated history: for every pool and asset book reserve <= bank balance of the pool address and the excess is explained by plain third-party sends; per-denom liquidity total == sum of reserves.", "5/C01", ""),
  'C02': ("deterministic simulation: step-wise invariant (TotalShares = supply = sum committed = custody) + bank-event ledger attribution of every share mint/burn to a join/create/exit",
          "Checked at every transaction and block boundary of every simulated history, including leveraged-LP joins/exits on behalf of position addresses and liquidations.", "5/C02", ""),
- 'C03': ("deterministic simulation: every executed swap (all swaps execute in the amm end blocker) is re-priced against pool reserves reconstructed from the ordered real bank movements immediately before it; exact rational bound for equal weights, float bound with the stated 1e-8 allowance for unequal weights, oracle-value bound for oracle pools",
+ 'C03': ("deterministic simulation: every executed swap (all swaps execute in the amm end blocker) is re-priced against pool reserves reconstructed from the ordered real bank movements immediately before it; exact rational bound for equal weights, float bound with the stated 1e-8 allowance for unequal weights, oracle-value bound for oracle pools (both on the stated output and on everything that leaves the pool's address while the swap is in flight); for swaps belonging to user requests a fee-aware bound (input reduced by the smallest fee any tier discount and two-hop routing rule allows)",
          "Held on every swap of every explored history (user requests, fee conversions, multi-hop hops, both directions). Does not cover the numeric input space of the pure pricing functions uniformly: reserves, weights, fees and prices are swarm-randomised and evolve along trajectories.", "5/C03", "Numeric-domain completeness of the pure functions is out of this technique's reach."),
  'C04': ("deterministic simulation: reference model with one record per accepted swap request (diff of the transient queue after every transaction), matched against the ordered end-block swap settlements and cross-checked with the bank-event ledger; schedules = seeded block composition/order, duplicates, same/opposite directions on one pool",
          "Each accepted request settles at most once within its limits or leaves no movement; no settlement without a request of the same block; queue empty before the first transaction of the next block.", "5/C04", ""),
